@@ -739,11 +739,13 @@ impl<'a, F: EvalComptimeFn> InferenceCtx<'a, F> {
             // println!();
 
             if self.to_infer.is_empty() {
-                #[cfg(capy_verif)]
-                verif_trace.end();
                 break;
             }
         }
+
+        // (after the loop, not where it is left: whichever way the loop ends, the trace says so)
+        #[cfg(capy_verif)]
+        verif_trace.end();
 
         let mut any_were_unsafe_to_compile = false;
 
